@@ -441,6 +441,9 @@ impl Prop for C02 {
       _ => panic!("unknown task {}", t),
     }
   }
+  fn cold_subs(&self) -> Vec<(&'static str, i64, i64, fn(i64) -> Vec<i64>)> {
+    vec![("s2l", 0, crate::model::NDAYS as i64, |x| vec![x])]
+  }
   fn eval(&self, env: &Env, out: &mut Out, sub: &str, case: &Case) {
     match sub {
       "s2l" => self.eval_s2l(env, out, case),
